@@ -529,7 +529,7 @@ def worker(job):
   res = symx.explore(scn, max_paths=6000 if tier == 'quick' else 60000, timeout_s=240 if tier == 'quick' else 3000)
   failed = []
   for claim, values, prefix in res.failed[:3]:
-    failed.append(replay(scn0, claim, values))
+    failed.append(_replay_claim(scn0, claim, values))
   return {'job': [kind, list(args)], 'paths': res.paths, 'cut': res.cut, 'cut_reasons': res.cut_reasons, 'claims': res.claims,
           'discharged': res.discharged, 'failed': failed, 'unknown': res.unknown, 'stats': res.stats, 'witness': res.paths > 0,
           'samples': [{'job': kind, 'args': list(args), 'paths': res.paths, 'claims_proved_unsat': res.discharged}]}
@@ -546,7 +546,7 @@ def _closed_float(t):
   return None
 
 
-def replay(scn0, claim, values):
+def _replay_claim(scn0, claim, values):
   """1) real numpy on the model values, numeric comparison with the evaluated definition (equality claims);
   2) otherwise the exact path: the same library code on constant proxies, the claim decided on closed terms."""
   out = {'claim': claim, 'values': values, 'reproduced': False, 'detail': ''}
@@ -582,6 +582,18 @@ def replay(scn0, claim, values):
   except Exception as e:  # pylint: disable=broad-exception-caught
     out['detail'] += f'exact replay raised {type(e).__name__}: {e}'
   return out
+
+
+def replay(data):
+  """./run.py C07 --replay FILE : re-evaluates the recorded claim on the recorded values with the current /repo code."""
+  import ast
+  kind, args = ast.literal_eval(data['job']) if isinstance(data['job'], str) else data['job']
+  args = tuple(tuple(a) if isinstance(a, list) else a for a in args)
+  scn0, _, _mods = JOBS[kind](*args)
+  out = _replay_claim(scn0, data['claim'], ast.literal_eval(data['values']) if isinstance(data['values'], str) else data['values'])
+  print(out['detail'])
+  print('REPRODUCED' if out['reproduced'] else 'NOT-REPRODUCED')
+  return 1 if out['reproduced'] else 0
 
 
 def classify(r, f):
